@@ -251,6 +251,10 @@ PATHS = {
     "append": lambda x: _app(div("a"), x).get_html_string(),
     "append_many": lambda x: _app(div(), span(), x, span()).get_html_string(),
     "extend": lambda x: _ext(div(span()), [x]).get_html_string(),
+    # one-shot iterables handed to extend() / += : every item arrives, once
+    "extend_generator": lambda x: _ext(div(span()), (y for y in [x, "t"])).get_html_string(),
+    "children_extend_iterator": lambda x: _ext(div(span()).children, iter(["a", x])).get_html_string(),
+    "taglist_iadd_map": lambda x: _iadd(ht.TagList(p()), map(lambda y: y, [x, span()])).get_html_string(),
     "insert": lambda x: _ins(div(span(), span()), 1, x).get_html_string(),
     "insert_front_only": lambda x: _ins(div(), 0, x).get_html_string(),
     "tagify_single": lambda x: div(_TFLeaf(x, False)).render()["html"],
